@@ -23,10 +23,14 @@ def run(tier, argv):
     Ls = "4" if quick else "5"
     r = vlib.tlc(work, "Life", "Life.cfg", consts={"MaxLen": Ls, "World": '"shared"'}, to_file=raws, timeout=6000, heap="24g")
     rep.add_tlc(r, "Life, shared world: all histories of length %s over two roots holding the same user-type object (one of them fails to compile)" % Ls)
+    rawd = work.path("gen-docs.txt")
+    Ld = "4" if quick else "5"
+    r = vlib.tlc(work, "Life", "Life.cfg", consts={"MaxLen": Ld, "World": '"docs"'}, to_file=rawd, timeout=6000, heap="24g")
+    rep.add_tlc(r, "Life, documents only: all histories of length %s over Check / Len / NextLexeme / drain / Validate on three persistent documents" % Ld)
     cases, docs = work.path("cases.ndjson"), work.path("docs.json")
     n = 0
     with open(cases, "w") as f:
-        for src in (raw, raws):
+        for src in (raw, raws, rawd):
             for l in vlib.tagged_file(src, "@@CASE"):
                 f.write(l + "\n")
                 n += 1
@@ -62,7 +66,7 @@ def run(tier, argv):
     rep.cov["rule"] = ("every history of exactly %s operations over 4 schemas (valid with types, invalid, optional recursion, overlapping key shortcuts), 3 fresh and 3 persistent "
                        "documents (valid, cut off, trailing garbage), an enum rule and a regex type; each step compared with the same call on fresh objects or with the "
                        "lexeme TLC computed for the document cursor; returned slices / ASTs / lists re-read at the end; "
-                       "plus every history of %s operations over two roots that hold the same user-type object, one of which cannot be compiled" % (L, Ls))
+                       "plus every history of %s operations over two roots that hold the same user-type object, one of which cannot be compiled, and every history of %s operations on the persistent documents alone" % (L, Ls, Ld))
     bad += maporder_stage(work, rep, hbin, quick)
     return rep, bad
 
